@@ -2,8 +2,10 @@
 
 TLC checks the operational Absorb / ExposePorts (clause-by-clause mirror of PortNamespace.absorb and
 ProcessSpec._expose_ports) against the declarative SelectedOK / NsProps / Independent / MutuallyExclusive on every
-instance of the bounded universe; every instance is then executed on the real ProcessSpec and compared, followed by
-every single mutation of either side.  Repairs present in /repo are listed in harness/expose_model.FIXES
+instance of the bounded universe; every instance is then executed on the real ProcessSpec and compared (port tree,
+outcome, memory, aliasing with the source, identity of the destination's surviving objects = InPlace), followed by
+every single mutation of either side.  The destinations include existing EMPTY namespaces on the way to the target
+namespace (n, n.m, n.m.k).  Repairs present in /repo are listed in harness/expose_model.FIXES
 (override for experiments: VERIF_C15_FIXES="F14").
 """
 from .. import expose_check
